@@ -33,7 +33,7 @@ ANCHORS = [
 ]
 CTORS = ["rows", "pyrows", "mixedrows", "flat", "flat_nplens", "flatlist", "shape_tuple", "raggedshape", "flat_strided", "matrix"]
 FLOOR_TAGS = ["ctor:" + c for c in CTORS] + ["kind:b", "kind:i", "kind:u", "kind:f", "v:small", "v:extreme", "v:nonfinite",
-                                             "reject", "saveload", "matrix-roundtrip", "order:F", "order:T", "order:strided", "norows", "allempty", "e-first", "e-last", "e-mid", "e-consec", "e-none", "big-repr"]
+                                             "reject", "saveload", "matrix-roundtrip", "order:F", "order:T", "order:strided", "norows", "allempty", "e-first", "e-last", "e-mid", "e-consec", "e-none", "big-repr", "lensdtype:narrow", "lensdtype:sum-overflows"]
 FLOOR_MONITORS = ["c01:readback", "c01:geometry", "c01:reject", "c01:result-independent", "inv:ragged"]
 N_RANDOM = {"quick": 12500, "thorough": 120000}
 
@@ -42,10 +42,16 @@ def setup(lib):
     contracts.attach(lib, which=("ragged",))
 
 
-def mk_case(lens, dtype, ctor, vclass="small", vals=None, rng=None, saveload=False):
+def mk_case(lens, dtype, ctor, vclass="small", vals=None, rng=None, saveload=False, lensdtype=None):
     if vals is None:
         vals = gen.values(rng, dtype, sum(lens), vclass).tolist()
-    return {"lens": list(lens), "dtype": np.dtype(dtype).name, "ctor": ctor, "vclass": vclass, "vals": vals, "saveload": bool(saveload)}
+    c = {"lens": list(lens), "dtype": np.dtype(dtype).name, "ctor": ctor, "vclass": vclass, "vals": vals, "saveload": bool(saveload)}
+    if ctor == "flat_nplens":
+        if lensdtype is None and rng is not None:
+            fits = [d for d in gen.NP_INTS if not lens or max(lens) <= np.iinfo(d).max]
+            lensdtype = rng.choice(fits)
+        c["lensdtype"] = lensdtype or "int64"
+    return c
 
 
 def build(case, flat, rows):
@@ -61,7 +67,8 @@ def build(case, flat, rows):
     if ctor == "flat":
         return RA(flat.copy(), list(lens)), True
     if ctor == "flat_nplens":
-        return RA(flat.copy(), np.array(lens, dtype=np.int64)), True
+        # the lengths as a numpy array of any integer dtype that holds every length (the *sums* need not fit that dtype)
+        return RA(flat.copy(), np.array(lens, dtype=case.get("lensdtype", "int64"))), True
     if ctor == "flatlist":
         return RA(flat.tolist(), list(lens), dtype=dt), True
     if ctor == "shape_tuple":
@@ -182,7 +189,12 @@ def run(case):
             return fail("save/load", rb, pyrows)
 
     # geometry object
-    r = check_geometry(lens, ra, tags)
+    ld = case.get("lensdtype")
+    if ld and ld != "int64":
+        tags.append("lensdtype:narrow")
+        if lens and sum(lens) > np.iinfo(ld).max:
+            tags.append("lensdtype:sum-overflows")
+    r = check_geometry(lens, ra, tags, lens_as=(np.array(lens, dtype=ld) if ld else None))
     if r is not None:
         return r
     if tot > 100:
@@ -195,12 +207,12 @@ def run(case):
     return held(tags, nontrivial)
 
 
-def check_geometry(lens, ra, tags):
+def check_geometry(lens, ra, tags, lens_as=None):
     n, tot = len(lens), sum(lens)
     starts = [0] + list(itertools.accumulate(lens))[:-1] if n else []
     ends = list(itertools.accumulate(lens))
     cells = [(i, j) for i in range(n) for j in range(lens[i])]
-    for name, shape in (("array.geometry", getattr(ra, "_shape", None)), ("RaggedShape(lengths)", attempt(CTX.lib.RaggedShape, list(lens)))):
+    for name, shape in (("array.geometry", getattr(ra, "_shape", None)), ("RaggedShape(lengths)", attempt(CTX.lib.RaggedShape, list(lens) if lens_as is None else lens_as))):
         if name.startswith("RaggedShape"):
             if not shape.ok:
                 return violated("RaggedShape(%s) raised %r" % (lens, shape), tags + ["geometry"])
@@ -342,6 +354,10 @@ def directed():
         yield mk_case([2, 0, 3, 1], dtype, "flat", "nonfinite", rng=rng, saveload=True)
         yield mk_case([3, 3], dtype, "rows", "nonfinite", rng=rng)
         yield mk_case([1, 2], dtype, "pyrows", "nonfinite", rng=rng)
+    # lengths given in a narrow integer dtype whose range the row starts / the total exceed
+    for lens, ld in (([100] * 4, "uint8"), ([100, 100, 100], "int8"), ([0, 127, 1, 0, 127, 3], "int8"), ([255, 255, 2], "uint8"), ([200, 0, 0, 100, 0], "uint8"),
+                     ([30000, 30000, 7], "int16"), ([40000, 30000], "uint16"), ([3, 2], "uint8"), ([3, 0, 2], "int32"), ([3, 0, 2], "uint64")):
+        yield mk_case(lens, "int32", "flat_nplens", "small", vals=list(range(sum(lens))), lensdtype=ld)
     # > 100 cells, > 20 rows: the other branch of repr/str
     yield mk_case([5] * 30, "int64", "flat", "small", rng=rng)
     yield mk_case([0, 120, 3], "int16", "rows", "small", rng=rng, saveload=True)
